@@ -175,7 +175,10 @@ Proof.
   - exact Ht.
   - pose proof (eval_extends e s0) as H. destruct (eval s0 e) as [s1 [v|x]]; cbn [fst] in *; eapply extends_trans; eassumption.
   - pose proof (IH s0 (L ++ [l]) x) as H. unfold ext3 in H.
-    destruct (exec_o fuel s0 (L ++ [l]) x) as [[s1 L1] r]; cbn [fst] in *. eapply extends_trans; eassumption.
+    destruct (exec_o fuel s0 (L ++ [l]) x) as [[s1 L1] r]; cbn [fst] in *.
+    assert (Hs1 : extends s s1) by (eapply extends_trans; eassumption).
+    destruct r as [[| |t| |]| |]; cbn [fst]; try exact Hs1.
+    destruct (Nat.eqb t l); cbn [fst]; exact Hs1.
   - pose proof (eval_extends e s0) as H. destruct (eval s0 e) as [s1 [v|x]]; cbn [fst] in *; eapply extends_trans; eassumption.
   - (* try *)
     assert (Hp : forall s1 L1 l, extends s1 (fst (fst (opolled tick (oblock (exec_o fuel)) s1 L1 l)))).
